@@ -4,6 +4,7 @@ from scipy.stats import norm
 
 from copulas.univariate import GaussianUnivariate
 from copulas.univariate.base import BoundedType, ParametricType, ScipyModel
+from copulas.utils import store_args
 
 
 class UserError(Exception):
@@ -64,6 +65,17 @@ class HistStub(StubBase):
 
 def hist_class(position, r1, r2):
     return type('Hist_p%d_r%d%d' % (position, r1, r2), (HistStub,), {'RANKS': (r1, r2), 'POSITION': position - 1, '__module__': __name__})
+
+
+class ParamStub(StubBase):
+    """one class, configured per instance: the KS rank (0 = cannot be fitted) is a constructor argument, so a candidate list can hold
+    several differently configured prototypes of the same family"""
+
+    @store_args
+    def __init__(self, rank=1, position=0, random_state=None):
+        StubBase.__init__(self, random_state=random_state)
+        self.RANK = rank
+        self.POSITION = position
 
 
 class PickyGaussian(GaussianUnivariate):
